@@ -48,6 +48,8 @@ type Instance struct {
 	Reaped     bool
 
 	// observations (guarded by W.Mu)
+	cfgOKKey  string // CheckLatestCfg cache
+	cfgOKOps  int
 	LastState raft.RaftState
 	States    []StateObs
 }
